@@ -349,22 +349,26 @@ func TestVerif_C06_ReadLoopNacks(t *testing.T) {
 				}
 				for _, rep := range rr.Reports {
 					gotRR = true
-					span := uint32(arr[len(arr)-1] - arr[0] + 1)
-					if rep.TotalLost > span {
-						t.Fatalf("receiver report: total lost %d > packets the source ever sent (%d)", rep.TotalLost, span)
-					}
 					maxE := 0
 					for _, e := range arr {
 						if e > maxE {
 							maxE = e
 						}
 					}
+					// the statistics start at the first arrival and reach up to the newest packet (not the last arrival:
+					// that may be a late one); every NACK sent adds one expected retransmission
+					span := uint32(maxE - arr[0] + 1)
+					if rep.TotalLost > span+uint32(len(nacked)) {
+						t.Fatalf("receiver report: total lost %d > packets between the first and the newest arrival (%d) + expected retransmissions (%d)", rep.TotalLost, span, len(nacked))
+					}
 					if uint16(rep.LastSequenceNumber) != uint16(maxE) {
 						t.Fatalf("receiver report: highest seqno %d, want %d", uint16(rep.LastSequenceNumber), uint16(maxE))
 					}
 					distinct := map[int]bool{}
 					for _, e := range arr {
-						distinct[e] = true
+						if e >= arr[0] {
+							distinct[e] = true
+						}
 					}
 					wantLost := int(span) - len(distinct)
 					if int(rep.TotalLost) > wantLost+len(nacked) {
